@@ -6186,7 +6186,7 @@ class CodegenCtx:
                 # Emit the case label
                 contents.add(f"case {idx}:")
                 # Emit goto target for fallthroughs if anything falls here (these are separate to make it slightly easier to read)
-                if any(x.is_fallthrough for x in self.dfa.transitions_pointing_to(state)):
+                if any(x.is_fallthrough and x.target == state for source in self.dfa.states for x in source.all_transitions()):
                     contents.add(f"fall_{idx}:")
                 with contents as state_body:
                     # Is this a normal state
